@@ -170,6 +170,74 @@ theorem th_withLspans (s : Sys) (x : List (String × LocalSpansVal)) (t2 : Nat) 
     ({ s with lspans := x } : Sys).th t2 = s.th t2 := rfl
 theorem th_withNextCollect (s : Sys) (x : Nat) (t2 : Nat) :
     ({ s with nextCollect := x } : Sys).th t2 = s.th t2 := rfl
+theorem th_withAdapters (s : Sys) (x : List (String × Adapter)) (t2 : Nat) :
+    ({ s with adapters := x } : Sys).th t2 = s.th t2 := rfl
+theorem th_withSpansAdapters (s : Sys) (x : List (String × SpanVal)) (y : List (String × Adapter)) (t2 : Nat) :
+    ({ s with spans := x, adapters := y } : Sys).th t2 = s.th t2 := rfl
+
+/-- closes goals `(… .th t2) = s.th t2` built from the state-update helpers -/
+macro "th_other_tac" h:ident : tactic => `(tactic| repeat' (first
+  | rw [Sys.th_setTh_other _ _ _ _ $h]
+  | rw [Sys.putCtr_th_other _ _ _ _ $h]
+  | rw [Sys.dropSpanVal_th_other _ _ _ _ $h]
+  | rw [Sys.closeGuard_th_other _ _ _ _ $h]
+  | rw [th_withAdapters]
+  | rw [th_withSpansAdapters]
+  | rw [th_withSpans]
+  | split
+  | rfl))
+
+theorem Sys.adPoll_th_other (s : Sys) (t t2 : Nat) (a call : String) (hne : t2 ≠ t) :
+    (s.adPoll t a call).1.th t2 = s.th t2 := by
+  unfold Sys.adPoll
+  cases assocGet s.adapters a with
+  | none => rfl
+  | some ad =>
+    dsimp only
+    cases ad.kind with
+    | enterOnPoll =>
+      dsimp only
+      cases (s.th t).stack.enterSpan (s.ctr t) ad.name with
+      | none => dsimp only; rw [Sys.th_setTh_other _ _ _ _ hne, th_withAdapters]
+      | some r => dsimp only; rw [Sys.putCtr_th_other _ _ _ _ hne, Sys.th_setTh_other _ _ _ _ hne, th_withAdapters]
+    | inSpan | stream | sink =>
+      all_goals
+        dsimp only
+        cases ad.span with
+        | none => dsimp only; rw [Sys.th_setTh_other _ _ _ _ hne, th_withAdapters]
+        | some sv =>
+          cases sv with
+          | none => dsimp only; rw [Sys.th_setTh_other _ _ _ _ hne, th_withAdapters]
+          | some sp =>
+            dsimp only
+            cases (s.th t).stack.registerLine (some (issueToken sp)) with
+            | none => dsimp only; rw [Sys.th_setTh_other _ _ _ _ hne, th_withAdapters]
+            | some r => dsimp only; rw [Sys.th_setTh_other _ _ _ _ hne, th_withAdapters]
+
+theorem Sys.adEnd_th_other (s : Sys) (t t2 : Nat) (a result : String) (hne : t2 ≠ t) :
+    (s.adEnd t a result).1.th t2 = s.th t2 := by
+  unfold Sys.adEnd
+  cases assocGet s.adapters a with
+  | none => rfl
+  | some ad =>
+    cases (s.th t).guards with
+    | nil => rfl
+    | cons g gs =>
+      dsimp only
+      cases ad.inCall with
+      | none => rfl
+      | some call =>
+        dsimp only
+        split
+        · cases ad.span with
+          | none =>
+            dsimp only
+            rw [th_withAdapters, Sys.closeGuard_th_other _ _ _ _ hne, Sys.th_setTh_other _ _ _ _ hne]
+          | some sv =>
+            dsimp only
+            rw [Sys.dropSpanVal_th_other _ _ _ _ hne, th_withAdapters, Sys.closeGuard_th_other _ _ _ _ hne,
+              Sys.th_setTh_other _ _ _ _ hne]
+        · rw [th_withAdapters, Sys.closeGuard_th_other _ _ _ _ hne, Sys.th_setTh_other _ _ _ _ hne]
 
 /-- **an operation of thread `t` leaves every other thread's local state exactly as it was** -/
 theorem exec_th_other (s : Sys) (t t2 : Nat) (op : Op) (hne : t2 ≠ t) : (exec s t op).1.th t2 = s.th t2 := by
@@ -308,6 +376,20 @@ theorem exec_th_other (s : Sys) (t t2 : Nat) (op : Op) (hne : t2 ≠ t) : (exec 
     split
     · rfl
     · exact spam_th_other n s t t2 hne
+  | adNew a kind arg =>
+    simp only [exec]
+    cases kind with
+    | enterOnPoll => rfl
+    | inSpan | stream | sink => all_goals (dsimp only; split <;> rfl)
+  | adPoll a call => simp only [exec]; exact Sys.adPoll_th_other s t t2 a call hne
+  | adEnd a result => simp only [exec]; exact Sys.adEnd_th_other s t t2 a result hne
+  | adDrop a =>
+    simp only [exec]
+    split
+    · rfl
+    · split
+      · rw [Sys.dropSpanVal_th_other _ _ _ _ hne]; rfl
+      · rfl
 
 end Fastrace
 
@@ -378,5 +460,65 @@ theorem Sys.dropSpanVal_loc (s : Sys) (t t2 : Nat) (sv : SpanVal) : ((s.dropSpan
     cases sp.collectId with
     | none => dsimp only; rw [Sys.submitSpans_loc, Sys.putCtr_loc]
     | some cid => dsimp only; rw [Sys.sendCmd_loc, Sys.submitSpans_loc, Sys.putCtr_loc]
+
+end Fastrace
+
+namespace Fastrace
+
+/-! sending commands never touches the adapter table -/
+
+@[simp] theorem Sys.setTh_adapters (s : Sys) (t : Nat) (th : Th) : (s.setTh t th).adapters = s.adapters := rfl
+@[simp] theorem Sys.putCtr_adapters (s : Sys) (t : Nat) (c : Ctr) : (s.putCtr t c).adapters = s.adapters := rfl
+
+theorem Sys.setRing_adapters (s : Sys) (t : Nat) (r : Ring Cmd) : (s.setRing t r).adapters = s.adapters := by
+  unfold Sys.setRing
+  cases s.cyc with
+  | none => rfl
+  | some cs =>
+    simp only
+    split
+    · rfl
+    · split <;> rfl
+
+theorem Sys.register_adapters (s s' : Sys) (t : Nat) (h : s.register t = some s') : s'.adapters = s.adapters := by
+  unfold Sys.register at h
+  split at h
+  · cases h; rfl
+  · split at h
+    · cases h
+    · cases h; rfl
+
+theorem Sys.sendCmd_adapters (s : Sys) (t : Nat) (cmd : Cmd) (f : Bool) : (s.sendCmd t cmd f).adapters = s.adapters := by
+  unfold Sys.sendCmd
+  cases hr : s.register t with
+  | none => rfl
+  | some s' =>
+    have h1 := Sys.register_adapters s s' t hr
+    dsimp only
+    cases s'.ringOf t with
+    | none => exact h1
+    | some r =>
+      dsimp only
+      split
+      · rw [Sys.setTh_adapters, Sys.setRing_adapters]; exact h1
+      · rw [Sys.setTh_adapters, Sys.setRing_adapters]; exact h1
+
+theorem Sys.submitSpans_adapters (s : Sys) (t : Nat) (sp : SpanSet) (tok : Token) :
+    (s.submitSpans t sp tok).adapters = s.adapters := by
+  unfold Sys.submitSpans
+  dsimp only
+  split
+  · rfl
+  · exact Sys.sendCmd_adapters _ _ _ _
+
+theorem Sys.dropSpanVal_adapters (s : Sys) (t : Nat) (sv : SpanVal) : (s.dropSpanVal t sv).adapters = s.adapters := by
+  unfold Sys.dropSpanVal
+  cases sv with
+  | none => rfl
+  | some sp =>
+    dsimp only
+    cases sp.collectId with
+    | none => dsimp only; rw [Sys.submitSpans_adapters, Sys.putCtr_adapters]
+    | some cid => dsimp only; rw [Sys.sendCmd_adapters, Sys.submitSpans_adapters, Sys.putCtr_adapters]
 
 end Fastrace
